@@ -38,7 +38,8 @@ Definition pybind (r : pyres) (f : Z -> pyres) : pyres :=
   match r with PyOk z => f z | e => e end.
 
 (* resource bound used when the model is *executed* (cases files); theorems quantify over it *)
-Definition default_lim : Z := 16384.
+(* below 4300 decimal digits: compute_binary's str(val) raises ValueError above that *)
+Definition default_lim : Z := 12000.
 
 Definition py_floordiv (a b : Z) : pyres := if b =? 0 then PyZeroDiv else PyOk (a / b).
 Definition py_mod (a b : Z) : pyres := if b =? 0 then PyZeroDiv else PyOk (a mod b).
